@@ -182,9 +182,9 @@ class MolGraph:
         :raises: KeyError if atom is not in graph.
         """
         del self._atom_attrs[atom]
-        if nbr := self._neighbors.pop(atom, None):
-            for n in nbr:
-                self.remove_bond(atom, n)
+        for n in tuple(self._neighbors.get(atom, ())):
+            self.remove_bond(atom, n)
+        self._neighbors.pop(atom, None)
 
     def get_atom_attribute(self, atom: AtomId, attr: str) -> Optional[Any]:
         """
@@ -374,7 +374,7 @@ class MolGraph:
         :param atom: Id of the atom.
         :return: tuple of atoms connected to the atom.
         """
-        return frozenset(self._neighbors[atom])
+        return frozenset(self._neighbors.get(atom, ()))
 
     def connectivity_matrix(
         self,
